@@ -405,7 +405,7 @@ func (r *Run) opRmBucket(op *Op) {
 		r.expectNoBucket(resp, "DELETE bucket")
 		return
 	}
-	if b.Dirty && (resp.Status == 204 || resp.Status == 409) {
+	if (b.Dirty || len(r.indetKeys(b)) > 0) && (resp.Status == 204 || resp.Status == 409) {
 		if resp.Status == 204 {
 			delete(r.M.Buckets, op.B)
 		}
@@ -769,12 +769,15 @@ func (r *Run) opCopy(op *Op) {
 	}
 	sk := sb.Keys[op.SrcKey]
 	dk := db.Keys[op.Key]
-	if (sk != nil && sk.Indet) || r.me().faulted {
-		if dk == nil {
-			dk = &model.Key{}
-			db.Keys[op.Key] = dk
+	if sk != nil && sk.Indet {
+		// the source's content is unknown: follow what the store did
+		if resp.OK() {
+			g := r.quiet("GET", target(op.B, op.Key, nil))
+			if g.Status == 200 {
+				r.M.Put(db, op.Key, model.NewEntity(append([]byte(nil), g.Body...), nil, "observed copy of an indeterminate source"))
+			}
 		}
-		dk.Indet = true
+		_ = dk
 		return
 	}
 	src := sk.Live()
